@@ -51,8 +51,8 @@ CONSTANTS Kinds,     \* object kinds explored in this run
           Mode       \* "mc": two objects, no history (exhaustive);  "enum": one object, path recorded and printed
 
 AllDev == {"HashReceivedBytes", "SizeBeforeScripts", "JsonDropsField", "DbTruncatesEvents", "CompressEdge",
-           "HashSkipsField", "CopyKeepsMemo"}
-AllQuirks == {"SizeOfReceived", "EncodeMarksObject", "JsonLosesArgs"}
+           "HashSkipsField", "CopyKeepsMemo", "SizeOfReceived", "EncodeMarksObject"}
+AllQuirks == {"JsonLosesArgs"}
 ASSUME Dev \subseteq AllDev /\ Quirks \subseteq AllQuirks /\ K \in 1..6 /\ Mode \in {"mc", "enum"}
 
 NoMemo == <<"-">>
@@ -123,13 +123,14 @@ ReportedSize(o) == IF o.ms = NoSize THEN SizeOf(o.c) ELSE o.ms
 Ok(o) == [ok |-> TRUE, o |-> o]
 Refuse(o) == [ok |-> FALSE, o |-> o]
 
-(* transaction.NewTransactionFromBytes / decodeBinaryNoSize(br, buf): memoises the digest of the RECEIVED signed part if
-   it is the canonical encoding (repair ccb619b), nothing otherwise; size := len(received) *)
+(* transaction.NewTransactionFromBytes / decodeBinaryNoSize(br, buf): memoises the digest of the RECEIVED signed part and
+   the length of the received bytes only if they are the canonical encoding (repairs ccb619b and, for the size, the one
+   this check led to; deviations HashReceivedBytes and SizeOfReceived are the code before them) *)
 DecFromBytes(b) ==
     Obj(b.c,
         IF "HashReceivedBytes" \in Dev THEN HRaw(b)
         ELSE IF b.form = "nc-signed" THEN NoMemo ELSE ImplH(b.c),
-        IF "SizeOfReceived" \in Quirks THEN LenOf(b) ELSE SizeOf(b.c))
+        IF "SizeOfReceived" \in Dev THEN LenOf(b) ELSE SizeOf(b.c))
 (* DecodeBinary on a reader: createHash over the re-encoding, Size() over the re-encoding *)
 DecBinary(b) ==
     Obj(b.c, ImplH(b.c), IF "SizeBeforeScripts" \in Dev THEN SizeOf(b.c) - WitSize ELSE SizeOf(b.c))
@@ -161,8 +162,9 @@ Reenc(k, o) == Ok(DecBinary(Canon(o.c)))
 Copy(k, o) == Ok(IF "CopyKeepsMemo" \in Dev THEN Obj(o.c, <<"H", "stale">>, o.ms) ELSE Obj(o.c, NoMemo, NoSize))
 FromBytes(k, o) == Ok(DecFromBytes(Canon(o.c)))
 Item(k, o) == Ok(Obj(o.c, NoMemo, NoSize))
-(* AppExecResult.EncodeBinaryWithContext sets the "invocations saved" bit in the VMState of the object it encodes *)
-Encode(k, o) == Ok(IF "EncodeMarksObject" \in Quirks /\ k = "aer" /\ o.c.ev > 0 THEN [o EXCEPT !.c.mark = TRUE]
+(* deviation EncodeMarksObject (the code before its repair): AppExecResult.EncodeBinaryWithContext set the "invocations
+   saved" bit in the VMState of the object it encoded, and core.Blockchain compared that VMState with HALT afterwards *)
+Encode(k, o) == Ok(IF "EncodeMarksObject" \in Dev /\ k = "aer" /\ o.c.ev > 0 THEN [o EXCEPT !.c.mark = TRUE]
                    ELSE Obj(o.c, ReportedHash(o), ReportedSize(o)))
 
 Apply(t, k, o) ==
